@@ -13,6 +13,7 @@ mod fam_shape;
 mod fam_graph;
 mod fam_accept;
 mod fam_nopanic;
+mod fam_meta;
 mod sema;
 mod fam_tree;
 mod fam_use;
@@ -43,6 +44,7 @@ fn main() {
         "graph" => fam_graph::run(rest),
         "accept" => fam_accept::run(rest),
         "nopanic" => fam_nopanic::run(rest),
+        "meta" => fam_meta::run(rest),
         f => {
             eprintln!("unknown family {f}");
             std::process::exit(2);
